@@ -171,10 +171,33 @@ class _BytesEval:
                     n = prog.consteval(_subst(a, self._scalar_env(env)), fn.module)
                     if isinstance(n, int) and name == "bytearray" or isinstance(n, int):
                         return ("bytes", ["const:0"] * n)
+                    if isinstance(n, (bytes, bytearray)):
+                        return ("bytes", ["const:%d" % b for b in n])        # bytearray(b"\x00\x01...")
                 except NotConst:
                     pass
                 if v[0] == "scalar" and isinstance(v[1], ast.Name):
                     return ("bytes", [("payload", v[1].id)])
+                raise AnalysisError("%s: %s is not understood by the frame builder analysis" % (fn.short, norm(e)[:60]))
+            if name in ("struct.pack", "pack") and e.args and not e.keywords:
+                # struct.pack(">HH", a, b)  ==  a.to_bytes(2, 'big') + b.to_bytes(2, 'big')  (unsigned codes only; both
+                # refuse a value outside the field: struct.error / OverflowError)
+                try:
+                    fmt = prog.consteval(e.args[0], fn.module)
+                except NotConst:
+                    fmt = None
+                if isinstance(fmt, str) and re.fullmatch(r"[<>!]?[HB]+", fmt) and (fmt[0] in "<>!" or set(fmt) <= {"B"}):
+                    order = "little" if fmt[0] == "<" else "big"
+                    codes = fmt.lstrip("<>!")
+                    if len(codes) == len(e.args) - 1:
+                        segs: List = []
+                        for c_, a_ in zip(codes, e.args[1:]):
+                            tb = ast.Call(func=ast.Attribute(value=a_, attr="to_bytes", ctx=ast.Load()),
+                                          args=[ast.Constant(value=2 if c_ == "H" else 1), ast.Constant(value=order)], keywords=[])
+                            ast.copy_location(tb, e)
+                            ast.fix_missing_locations(tb)
+                            v_ = self.ev(tb, env, fn, depth)
+                            segs.extend(v_[1])
+                        return ("bytes", segs)
                 raise AnalysisError("%s: %s is not understood by the frame builder analysis" % (fn.short, norm(e)[:60]))
             if name == "_modbus_checksum" and len(e.args) == 1:
                 v = self.ev(e.args[0], env, fn, depth)
@@ -236,6 +259,8 @@ class _BytesEval:
         env = dict(env)
         for st in fn.node.body:
             if isinstance(st, ast.Expr) and isinstance(st.value, ast.Constant):
+                continue
+            if isinstance(st, (ast.Import, ast.ImportFrom)):
                 continue
             if isinstance(st, (ast.Assign, ast.AnnAssign)) and getattr(st, "value", None) is not None:
                 tgt = st.targets[0] if isinstance(st, ast.Assign) else st.target
@@ -580,6 +605,10 @@ class Bounds:
                 return 0, None, "abs"
             if name == "int" and e.args:
                 return self.of(e.args[0], fn, facts, sym, depth)
+            if name == "sum" and len(e.args) == 1 and isinstance(e.args[0], ast.Call) and norm(e.args[0].func) == "divmod" and len(e.args[0].args) == 2:
+                # sum(divmod(a, b)) = a // b + a % b
+                a_, b_ = e.args[0].args
+                return self.of(ast.BinOp(left=ast.BinOp(left=a_, op=ast.FloorDiv(), right=b_), op=ast.Add(), right=ast.BinOp(left=a_, op=ast.Mod(), right=b_)), fn, facts, sym, depth)
             if name == "int.from_bytes" and e.args:
                 signed = any(k.arg == "signed" and _const(prog, fn, k.value) is True for k in e.keywords)
                 return (-32768, 32767, "int.from_bytes(<=2 bytes, signed)") if signed else (0, 65535, "int.from_bytes(<=2 bytes, unsigned)")
@@ -617,6 +646,13 @@ class Bounds:
                 return lo, hi, "guarded parameter"
             # assigned locally from an expression
             assigns = [n.value for n in ast.walk(fn.node) if isinstance(n, ast.Assign) and any(isinstance(tg, ast.Name) and tg.id == e.id for tg in n.targets)]
+            for n in ast.walk(fn.node):
+                # q, r = divmod(a, b)
+                if isinstance(n, ast.Assign) and len(n.targets) == 1 and isinstance(n.targets[0], ast.Tuple) and len(n.targets[0].elts) == 2 \
+                        and isinstance(n.value, ast.Call) and norm(n.value.func) == "divmod" and len(n.value.args) == 2:
+                    for k_, tg in enumerate(n.targets[0].elts):
+                        if isinstance(tg, ast.Name) and tg.id == e.id:
+                            assigns.append(ast.BinOp(left=n.value.args[0], op=ast.FloorDiv() if k_ == 0 else ast.Mod(), right=n.value.args[1]))
             if assigns:
                 lo = hi = None
                 first = True
